@@ -11,6 +11,11 @@ R12.gs         extractAndRemoveScalingAndShear: diag(scl) * Shear(shr) * R == in
 R12.zero       extractAndRemoveScalingAndShear (4x4 and 3x3): every value a row or shear is divided by is the value
                tested by the zero-scale guard (checkForZeroScaleInRow inlined: |scl| < 1 ...)
 R12.jacobi     one Jacobi rotation (3x3 and 4x4 eigen solvers): rho = mu1/mu2 only behind the strict test |mu2| > tol*|mu1|
+R12.sweep      every sweep of jacobiSVD / jacobiEigenSolver (3x3, 4x4) rotates every index pair (call sites of the drivers)
+R12.offdiag    maxOffDiag / maxOffDiagSymm cover every off-diagonal entry (one of (i,j),(j,i) for the symmetric one), no diagonal
+               entry, and equal |x| on a one-entry matrix
+R12.eigsel     min/maxEigenVector return the eigenbasis column of a smallest / largest-magnitude eigenvalue on every sign and
+               magnitude-order pattern of the eigenvalues (solver opaque)
 R12.shrt       extractSHRT: translation = last row; rotation angles = extractEulerXYZ of the orthonormalised matrix
 """
 import os
